@@ -266,16 +266,16 @@ theorem checkTypes_crash (m : Module) (ht : ∀ e ∈ inspected m, Typed e)
 /-- what each kind of attribute demands of its value -/
 def AttrOk (a : Attr) : Prop :=
   match a.kind, a.val with
-  | .boolConst, .expr e => HasType true e .bool ∧ closed e = true
+  | .boolConst, .expr e => HasType true e .bool ∧ a.constOk e = true
   | .bool, .expr e => HasType true e .bool
-  | .intConst, .expr e => HasType true e .int ∧ closed e = true
+  | .intConst, .expr e => HasType true e .int ∧ a.constOk e = true
   | .strList, .str v => v = true
   | .backEnds, .str v => v = true
   | _, _ => False
 
 theorem attrOne_ok (a : Attr) (ht : ∀ e, a.val = .expr e → Typed (a.file, e)) :
     ((attrOne a).errs = [] ∧ (attrOne a).crash = none) ↔ AttrOk a := by
-  rcases a with ⟨file, l, k, sg, v⟩
+  rcases a with ⟨file, l, k, sg, v, c⟩
   cases v with
   | str s => cases k <;> simp [attrOne, AttrOk]
   | expr e =>
@@ -287,7 +287,8 @@ theorem attrOne_ok (a : Attr) (ht : ∀ e, a.val = .expr e → Typed (a.file, e)
     · constructor
       · intro h
         by_cases hb : (tc file e).ty = .bool
-        · rw [hb] at hh; cases hc : closed e <;> simp_all
+        · rw [hb] at hh
+          cases hc : Attr.constOk ⟨file, l, .boolConst, sg, .expr e, c⟩ e <;> simp_all
         · simp_all
       · rintro ⟨h1, h2⟩
         simp [hasType_ty h1, h2]
@@ -301,7 +302,8 @@ theorem attrOne_ok (a : Attr) (ht : ∀ e, a.val = .expr e → Typed (a.file, e)
     · constructor
       · intro h
         by_cases hb : (tc file e).ty = .int
-        · rw [hb] at hh; cases hc : closed e <;> simp_all
+        · rw [hb] at hh
+          cases hc : Attr.constOk ⟨file, l, .intConst, sg, .expr e, c⟩ e <;> simp_all
         · simp_all
       · rintro ⟨h1, h2⟩
         simp [hasType_ty h1, h2]
@@ -310,7 +312,7 @@ theorem attrOne_ok (a : Attr) (ht : ∀ e, a.val = .expr e → Typed (a.file, e)
 
 theorem attrOne_crash (a : Attr) (ht : ∀ e, a.val = .expr e → Typed (a.file, e)) :
     (attrOne a).crash = none := by
-  rcases a with ⟨file, l, k, sg, v⟩
+  rcases a with ⟨file, l, k, sg, v, c⟩
   cases v with
   | str s => cases k <;> simp [attrOne]
   | expr e =>
